@@ -40,6 +40,7 @@ public:
 public:
   Token token;
   Position pos;
+  Position commentEnd;
 
   int errorLine;
   int errorColumn;
@@ -185,6 +186,7 @@ void Xml::Private::skipSpace()
             if(String::compare(pos.pos + 1, "->", 2) == 0)
             {
               pos.pos = end + 3;
+              commentEnd = pos;
               break;
             }
             ++pos.pos;
@@ -303,6 +305,7 @@ bool Xml::Private::parse(const char* data, Element& element)
 {
   pos.line = 1;
   pos.pos = pos.lineStart = data;
+  commentEnd = pos;
 
   skipSpace();
   while(*pos.pos == '<' && pos.pos[1] == '?')
@@ -377,8 +380,8 @@ bool Xml::Private::parseElement(Element& element)
           return false;
         continue;
       }
-      else
-        this->pos = pos;
+      else // rewind to the start of the text, but not in front of a comment that precedes it
+        this->pos = commentEnd.pos > pos.pos ? commentEnd : pos;
     }
     String string;
     if(!parseText(string))
